@@ -36,10 +36,19 @@ func (m *model) Canon() []byte {
 	return b.Bytes()
 }
 
-var contents = [][]recordtypes.Content{
-	{{Digest: "d1", DigestAlgo: "sha256", URI: "u", Meta: "m"}},
-	{{Digest: "d2", DigestAlgo: "sha256"}, {Digest: "d1", DigestAlgo: "md5", URI: "x"}},
+// contentsOf builds the i-th submitted content list afresh on every call: messages get their own copy (the
+// code under test may not be trusted to leave a message's slices alone) and the reference stays what was
+// submitted. The second list is deliberately not in sorted order; the third repeats a digest under another algorithm.
+func contentsOf(i int) []recordtypes.Content {
+	switch i {
+	case 0:
+		return []recordtypes.Content{{Digest: "d1", DigestAlgo: "sha256", URI: "u", Meta: "m"}}
+	default:
+		return []recordtypes.Content{{Digest: "d2", DigestAlgo: "sha256"}, {Digest: "d1", DigestAlgo: "md5", URI: "x"}, {Digest: "d1", DigestAlgo: "crc", Meta: "z"}}
+	}
 }
+
+const nContents = 2
 
 type opData struct {
 	content int
@@ -65,7 +74,7 @@ func (d *Driver) Init(e *mc.Env) *mc.State {
 
 func (d *Driver) Enabled(e *mc.Env, s *mc.State) []mc.Op {
 	var ops []mc.Op
-	for ci := range contents {
+	for ci := 0; ci < nContents; ci++ {
 		for _, who := range []string{"A", "B"} {
 			ops = append(ops, mc.Op{Name: fmt.Sprintf("create(c%d,%s)", ci+1, who), Data: opData{content: ci, creator: who, copies: 1}})
 		}
@@ -92,7 +101,7 @@ func (d *Driver) Apply(e *mc.Env, s *mc.State, op mc.Op) []mc.Finding {
 	m := s.Model.(*model)
 	var msgs []sdk.Msg
 	for i := 0; i < od.copies; i++ {
-		msgs = append(msgs, recordtypes.NewMsgCreateRecord(contents[od.content], mc.Addr(od.creator).String()))
+		msgs = append(msgs, recordtypes.NewMsgCreateRecord(contentsOf(od.content), mc.Addr(od.creator).String()))
 	}
 	seq := s.TxSeq
 	var out mc.Outcome
@@ -141,7 +150,7 @@ func (d *Driver) Check(e *mc.Env, s *mc.State) []mc.Finding {
 		if got.TxHash != cmtbytes.HexBytes(r.TxHash).String() {
 			fs = append(fs, mc.F("C19/readback-differs/txhash", "id %s txhash %s want %X", r.ID, got.TxHash, r.TxHash))
 		}
-		want := contents[r.Content]
+		want := contentsOf(r.Content)
 		if len(got.Contents) != len(want) {
 			fs = append(fs, mc.F("C19/readback-differs/contents", "id %s contents %v want %v", r.ID, got.Contents, want))
 			continue
@@ -203,7 +212,8 @@ func Parts() []mc.Part {
 		return rep
 	}}
 	return []mc.Part{
-		mc.ExplorePart("search", New, 5, 7, true, "state with >= 2 records created on the path; distinct by canonical store+model hash"),
+		mc.ExplorePartC("search", New, 5, 7, true, "state with >= 2 records created on the path; distinct by canonical store+model hash",
+			&mc.ConfOpts{Stores: []string{"record"}, SkipDenoms: map[string]bool{"stake": true}, MaxPaths: 150, SignInSeam: true}),
 		surface,
 	}
 }
